@@ -26,6 +26,14 @@ var Root = func() string {
 	return "/verif"
 }()
 
+// Out is where evidence/ and replays/ are written (Root unless VERIF_OUT set).
+var Out = func() string {
+	if r := os.Getenv("VERIF_OUT"); r != "" {
+		return r
+	}
+	return Root
+}()
+
 // Exit codes.
 const (
 	ExitOK           = 0
@@ -232,7 +240,7 @@ func (c *Ctx) Violation(key, what string, replay any) bool {
 		return true
 	}
 	c.replayN++
-	dir := filepath.Join(Root, "replays")
+	dir := filepath.Join(Out, "replays")
 	os.MkdirAll(dir, 0755)
 	p := filepath.Join(dir, fmt.Sprintf("%s-%d-%d.json", c.ID, c.Seed, c.replayN))
 	b, _ := json.MarshalIndent(map[string]any{
@@ -299,22 +307,31 @@ func (c *Ctx) writeEvidence() error {
 	if err != nil {
 		return err
 	}
-	dir := filepath.Join(Root, "evidence")
+	dir := filepath.Join(Out, "evidence")
 	os.MkdirAll(dir, 0755)
 	return os.WriteFile(filepath.Join(dir, c.ID+".json"), b, 0644)
 }
 
 func loadFindings() []Finding {
-	b, err := os.ReadFile(filepath.Join(Root, "known_findings.json"))
-	if err != nil {
-		return nil
+	var all []Finding
+	files := []string{filepath.Join(Root, "known_findings.json")}
+	// known_findings.d/ holds per-property files while a check is being
+	// developed; they are merged into known_findings.json before registration.
+	more, _ := filepath.Glob(filepath.Join(Root, "known_findings.d", "*.json"))
+	files = append(files, more...)
+	for _, p := range files {
+		b, err := os.ReadFile(p)
+		if err != nil {
+			continue
+		}
+		var f []Finding
+		if err := json.Unmarshal(b, &f); err != nil {
+			fmt.Fprintf(os.Stderr, "%s: %v\n", p, err)
+			os.Exit(ExitBuild)
+		}
+		all = append(all, f...)
 	}
-	var f []Finding
-	if err := json.Unmarshal(b, &f); err != nil {
-		fmt.Fprintf(os.Stderr, "known_findings.json: %v\n", err)
-		os.Exit(ExitBuild)
-	}
-	return f
+	return all
 }
 
 // Main is the entry point of the vcheck binary.
